@@ -57,7 +57,11 @@ func ruleCtxProvenance() check.Rule {
 					case s.Method == "Subscribe" || s.Method == "Connect":
 						c.Report(armed, key, s.Call.Pos(), "context-less %s inside a subscribe closure: the upstream is subscribed with context.Background() instead of the subscriber context", s.Method)
 					case s.CtxArg != nil:
-						report(armed, key, s.Call, cp.classify(s.Pkg, s.CtxArg, s.Call, 0), "upstream subscription")
+						if r := cp.classify(s.Pkg, s.CtxArg, s.Call, 0); r.ok && strings.Contains(r.why, "API-supplied context parameter") {
+						c.Report(armed, key, s.Call.Pos(), "the upstream is subscribed with a context the caller of the operator supplied (%s), not with one derived from the subscriber's: cancelling the subscription context no longer reaches the source", r.why)
+					} else {
+						report(armed, key, s.Call, r, "upstream subscription")
+					}
 					}
 				}
 				for _, e := range sc.Emits {
